@@ -115,3 +115,37 @@ def promoted_range(fb, body, o):
                 if len(vals) == 2:
                     return tuple(vals)
     return None
+
+
+def decide(body, fb, env, limit=4000):
+    """value returned by a small loop-free function for one point of a finite domain: every acyclic path is
+    followed with path-precise origins, branch conditions are evaluated under `env` (list of (matcher, value)),
+    infeasible paths are dropped; exactly one feasible path must remain.  Raises Unknown otherwise."""
+    from .interp import normal_cfg
+    from .paths import acyclic_paths, PathOriginsOv, simplify
+    cfg = normal_cfg(body)
+    if cfg.back_edges():
+        raise Unknown("loop")
+    vals = []
+    for p in acyclic_paths(cfg, 0, cfg.returns, limit):
+        org = PathOriginsOv(body, fb, p)
+        ok = True
+        for i, bi in enumerate(p[:-1]):
+            t = body.blocks[bi]["term"]
+            if t["k"] != "switch":
+                continue
+            v = ev(simplify(org.of_operand(t["x"], bi, "t")), env, fb, body)
+            taken = None
+            for a_, bb in t["arms"]:
+                if int(a_) == int(v):
+                    taken = bb
+            if taken is None:
+                taken = t["otherwise"]
+            if taken != p[i + 1]:
+                ok = False
+                break
+        if ok:
+            vals.append(ev(simplify(org.of_place({"l": 0, "proj": []}, p[-1], "t")), env, fb, body))
+    if len(vals) != 1:
+        raise Unknown("%d feasible paths" % len(vals))
+    return vals[0]
